@@ -159,10 +159,10 @@ def step (s : St) (line : String) : St × String :=
       (s, s!"p2plib {v}")
   | "p2pstale" =>
     -- the real sync service restarted on a store whose genuine head is `age` hours old; `tp` = the trusting period
-    -- (hours) the run is told, `now` = the op line's clock (ns)
+    -- (hours) the node is to configure (100 years since /repo 700919b), `now` = the op line's clock (ns)
     match headerStage { keyOk := o.bool "tkeyok", hdrSigOk := false, dataSigOk := false } (o.bytes "head") with
     | .ok hd =>
-      if o.nat "now" = 0 then (s, "bad-op") else
+      if o.nat "now" = 0 || (o.nat? "tp").isNone || (o.nat? "age").isNone then (s, "bad-op") else
       match headerStage (oracleOf o) (o.bytes "blob") with
       | .ok _ =>
         let tp : Int := (o.nat "tp" : Int) * 3600000000000
